@@ -1,6 +1,130 @@
 import HranoModel.Model.Options
-import HranoModel.Model.Sink
-import HranoModel.Model.Chan
-/-! C16 property theorems (statements only in this file; helper lemmas live in Lemmas/) -/
+/-!
+C16 — settings follow flag > environment > configuration file > default.
+
+Property theorems only.  The model is `Options.load` and its stages (`effective`, `nowOf`, `boundsOf`,
+`validate`, `cmdOf`) — `options.Load` after the two fixes recorded in known-findings.txt.  A `Settings`
+value says, per setting, what the command line, the environment and the configuration file at the
+effective location (`--config`, else `HR_CONFIG`, else the default path) give.  urfave/cli's
+`IsSet/String` and gcfg's reading of the documented keys are modelled, not verified; the C16 check
+enumerates the full source product against the real `Load()`.
+-/
 namespace Hrano.C16
+open Hrano Hrano.Options Hrano.App
+
+/-- the rule: command line, else environment, else configuration file, else default -/
+theorem pick_precedence {α} (flag env cfg : Option α) (d : α) :
+    pick flag env cfg d = (match flag, env, cfg with
+      | some v, _, _ => v
+      | none, some v, _ => v
+      | none, none, some v => v
+      | none, none, none => d) := by
+  cases flag <;> cases env <;> cases cfg <;> rfl
+
+/-- everything `load` returns is built from the staged values: in particular the four file-backed settings
+    are exactly `effective s` -/
+theorem load_uses_effective (s : Settings) (ld : Loaded) (h : load s = .ok ld) :
+    ld.opts.dbFile = (effective s).dbFile ∧ ld.opts.logFile = (effective s).logFile
+    ∧ ld.opts.maxDepth = (effective s).maxDepth
+    ∧ Date.parseLayout (effective s).fmtRaw = some ld.opts.layout
+    ∧ nowOf s ld.opts.layout = .ok ld.opts.now
+    ∧ ld.opts.rc.dateLayout = ld.opts.layout := by
+  unfold load at h
+  split at h
+  · cases h
+  · cases hl : Date.parseLayout (effective s).fmtRaw with
+    | none => rw [hl] at h; cases h
+    | some layout =>
+      rw [hl] at h
+      simp only at h
+      cases hn : nowOf s layout with
+      | error e => rw [hn] at h; cases h
+      | ok now =>
+        rw [hn] at h
+        simp only at h
+        cases hb : boundsOf s now layout with
+        | error e => rw [hb] at h; cases h
+        | ok bnd =>
+          rw [hb] at h
+          simp only at h
+          cases hv : validate s (effective s) with
+          | error e => rw [hv] at h; cases h
+          | ok u =>
+            rw [hv] at h
+            simp only at h
+            cases hc : cmdOf s now layout with
+            | error e => rw [hc] at h; cases h
+            | ok cmd =>
+              rw [hc] at h
+              simp only [Except.ok.injEq] at h
+              subst h
+              exact ⟨rfl, rfl, rfl, rfl, hn, rfl⟩
+
+/-- recipe-book path: flag, else HR_DATABASE, else DbFileName of the configuration file, else food.yaml -/
+theorem database_precedence (s : Settings) (h : s.gNoDatabase = false) :
+    (effective s).dbFile = pick s.gDatabase s.eDatabase (nonEmpty (cfgEntry s s.cDb)) defaultDb := by
+  simp [effective, h]
+
+theorem logfile_precedence (s : Settings) :
+    (effective s).logFile = pick s.gLogfile s.eLogfile (nonEmpty (cfgEntry s s.cLog)) defaultLog := rfl
+
+theorem date_format_precedence (s : Settings) :
+    (effective s).fmtRaw = pick s.gDateFormat s.eDateFormat (nonEmpty (cfgEntry s s.cDateFormat)) defaultLayout := rfl
+
+theorem maxdepth_precedence (s : Settings) :
+    (effective s).maxDepth = pick s.gMaxdepth s.eMaxdepth (nonZero (cfgEntry s s.cMaxDepth)) defaultMaxDepth := rfl
+
+/-- the current date: --today, else `Now` of the configuration file, else the clock -/
+theorem today_precedence (s : Settings) (layout : Layout) :
+    (∀ t c, s.gToday = some t → Date.parse layout t = some c → nowOf s layout = .ok (Date.instant c))
+    ∧ (s.gToday = none → ∀ n, cfgEntry s s.cNow = some n → nowOf s layout = .ok n)
+    ∧ (s.gToday = none → cfgEntry s s.cNow = none → nowOf s layout = .ok s.clock) := by
+  refine ⟨?_, ?_, ?_⟩
+  · intro t c ht hp; simp [nowOf, ht, hp]
+  · intro ht n hn; simp [nowOf, ht, hn]
+  · intro ht hn; simp [nowOf, ht, hn]
+
+/-- an entry of a configuration file that does not exist is never used; one of a file that exists is -/
+theorem config_entries_iff_loaded {α} (s : Settings) (v : Option α) :
+    cfgEntry s v = (if s.cfgExists then v else none) := rfl
+
+/-- an explicitly named configuration file (`--config` or `HR_CONFIG`) that does not exist is an error -/
+theorem explicit_config_missing_is_error (s : Settings) (hmiss : s.cfgExists = false)
+    (hnamed : s.gConfig.isSome ∨ s.eConfig.isSome) : load s = .error .configMissing := by
+  unfold load
+  have : (!s.cfgExists && isSet s.gConfig s.eConfig) = true := by
+    rcases hnamed with h | h <;> simp [hmiss, isSet, h]
+  simp [this]
+
+/-- a configuration file that exists — at the default location or named with `--config` / `HR_CONFIG` — is
+    loaded: its entries are the ones the precedence rule sees, and the existence check passes -/
+theorem explicit_config_loaded {α} (s : Settings) (hex : s.cfgExists = true) (v : Option α) :
+    cfgEntry s v = v ∧ (!s.cfgExists && isSet s.gConfig s.eConfig) = false := by
+  simp [cfgEntry, hex]
+
+/-- **--no-database behaves as an empty recipe book**: the book path becomes the null device, which reads as an
+    empty file whatever the directory holds -/
+theorem no_database_is_empty_book (s : Settings) (fs : Files) (h : s.gNoDatabase = true) :
+    (effective s).dbFile = App.devNull ∧ readFile fs (effective s).dbFile = .ok [] := by
+  have : (effective s).dbFile = App.devNull := by simp [effective, h, Options.devNull]
+  exact ⟨this, by rw [this]; simp [readFile]⟩
+
+/-- an empty book file and the null device give the same parse -/
+theorem empty_book_same_parse (fs : Files) (rf : ReadFaults) (p : Bytes) (hp : fs.find? (·.1 == p) = some (p, [])) (hnf : faultOf rf p = none) (hnf' : faultOf rf App.devNull = none) :
+    parsed fs rf p = parsed fs rf App.devNull := by
+  have h1 : readFile fs App.devNull = .ok [] := by simp [readFile]
+  have h2 : readFile fs p = .ok [] := by
+    unfold readFile
+    by_cases hd : p = App.devNull
+    · simp [hd]
+    · simp [hd, hp]
+  simp [parsed, h1, h2, hnf, hnf']
+
+/-! non-vacuity: all four sources set for the recipe-book path — the flag wins; without the flag the environment wins -/
+def demo : Settings := { cmd := [Bytes.ofString "reg"], gDatabase := some [102], eDatabase := some [101], cfgExists := true, cDb := some [99] }
+example : (effective demo).dbFile = [102] := by decide
+example : (effective { demo with gDatabase := none }).dbFile = [101] := by decide
+example : (effective { demo with gDatabase := none, eDatabase := none }).dbFile = [99] := by decide
+example : (effective { demo with gDatabase := none, eDatabase := none, cfgExists := false }).dbFile = Facts.defaultDbFilename := by decide
+
 end Hrano.C16
